@@ -494,6 +494,24 @@ theorem c12_str_missing_reported (cfg : Cfg) (ctx : Ctx) (h : StrOK cfg ctx)
       rw [← hr.2]
       exact renderTok_warns_static cfg _ ctx fuel _ o w' hk n hn hb
 
+/-- Missing variables are reported, through includes — string layer, non-strict: every variable the one left-to-right
+    expansion found unbound (in the template or in any included template it reached) is among the warnings of the
+    render of the TEXT. -/
+theorem c12_str_missing_through_includes (cfg : Cfg) (hns : cfg.strict = false) (ctx : Ctx) (h : StrOK cfg ctx)
+    (reg : SReg) (hreg : GrammarReg reg) (hro : RegOK cfg (tokReg reg)) (fuel : Nat) (t : Tmpl) (ht : Grammar t)
+    (hw : ∀ x ∈ flatten t, x.wfs cfg) (s : Str) (w : List Str)
+    (hr : translate cfg ctx (fuel + 1) (printToks (flatten t)) = .ok (s, w)) :
+    ∃ sout, specToks cfg reg ctx (fuel + 1) t = .ok sout ∧ ∀ n ∈ specMissing sout, n ∈ w := by
+  rw [c12_str_eq_tok_brace_free cfg ctx h (tokReg reg) hro (fuel + 1) (flatten t) hw, hns] at hr
+  cases hk : renderTok cfg false (tokReg reg) ctx (fuel + 1) (flatten t) with
+  | error e => rw [hk] at hr; cases hr
+  | ok p =>
+    obtain ⟨o, w'⟩ := p
+    rw [hk] at hr
+    simp only [Except.ok.injEq, Prod.mk.injEq] at hr
+    rw [← hr.2]
+    exact (c12_missing_reported cfg reg ctx fuel t).2.2 h.toBF hreg ht o w' hk
+
 /-- Unknown includes — string layer: the text `{{>name}}` with `name` a word that is not registered renders as the
     explicit marker, in both modes, without warnings. -/
 theorem c12_str_unknown_include_marker (cfg : Cfg) (ctx : Ctx) (h : StrOK cfg ctx) (reg : Reg) (hreg : RegOK cfg reg)
